@@ -319,7 +319,7 @@ func (Engine) RunOne(t *core.Tape, prop, tier string, info *core.RunInfo) *core.
 		}
 		if nd.sig == nil {
 			info.Probe("node-signed")
-			info.Logf("node %d signs with %d partials", i, len(nd.accepted))
+			info.Logf("node %d signs with %d partials: %x", i, len(nd.accepted), sig)
 		}
 		nd.sig = sig
 		return nil
